@@ -39,3 +39,29 @@ Print Assumptions C15_one_context_per_key.
 Theorem C15_for_cancels_nothing : forall k r, cancelled (snd (reg_for k r)) = cancelled r.
 Proof. exact for_cancels_nothing. Qed.
 Print Assumptions C15_for_cancels_nothing.
+
+(* Part (b): on the two-goroutine model (Loops.v), for every interleaving: an SPI call in flight always runs under a
+   context of the worker's current height that the registry handed out, and that context is done - the call is
+   released - as soon as the main loop has processed an election trigger for its (height, view) or a later one, a sync
+   to a higher height, or its own exit. *)
+From LH Require Import Loops LoopsFacts.
+Open Scope N_scope.
+
+Theorem C15_spi_context_is_current : forall s k, reach s -> l_worker s = WBusy k -> fst k = l_wh s /\ In k (issued (l_reg s)).
+Proof. exact spi_context_is_current. Qed.
+Print Assumptions C15_spi_context_is_current.
+
+Theorem C15_released_by_election : forall s k h v, reach s -> l_worker s = WBusy k -> (l_elect s = Some (h, v) \/ l_main s = MFwdTrig h v) ->
+  hv_lt k (h, v + 1) = true -> ctx_done (l_reg s) k = true /\ exists s', lstep s LSpiReleased = Some s' /\ l_worker s' = WSelect.
+Proof. exact spi_released_by_election. Qed.
+Print Assumptions C15_released_by_election.
+
+Theorem C15_released_by_sync : forall s k hb, reach s -> l_worker s = WBusy k -> (l_upd s = Some hb \/ l_main s = MFwdSync hb) ->
+  hv_lt k (hb + 1, 0) = true -> ctx_done (l_reg s) k = true /\ exists s', lstep s LSpiReleased = Some s' /\ l_worker s' = WSelect.
+Proof. exact spi_released_by_sync. Qed.
+Print Assumptions C15_released_by_sync.
+
+Theorem C15_released_by_shutdown : forall s k, reach s -> l_worker s = WBusy k -> l_main s = MExited ->
+  ctx_done (l_reg s) k = true /\ exists s', lstep s LSpiReleased = Some s' /\ l_worker s' = WSelect.
+Proof. exact spi_released_by_shutdown. Qed.
+Print Assumptions C15_released_by_shutdown.
